@@ -383,3 +383,8 @@ from pvc import registry as _R
 for _g in GROUPS:
     obligation(f'C07.callee.retraction.{_g}', functions=[f'{LT}:{_g}Type.add_', f'{LT}:LieTensor.add_', f'{LT}:LieType.add_', f'{LT}:LieType.Retr'], max_paths=32,
                note='callee contract of the parameter update (same contract function as C05.{g}.Retr_add)')(_R.OBLIGATIONS[f'C05.{_g}.Retr_add'].fn)
+
+# the direct solvers in floating point (consistent and least-squares systems up to condition 1e8, both dtypes): the bounded stand-in of
+# c10_solvers.py is run in this check too - "the step is the least-squares solution with the default solver" is a statement about what
+# PINV returns in float arithmetic as well (normal-equation shortcuts square the condition number and pass every exact-arithmetic contract)
+bounded('C07.callee.solver.float', functions=['pypose.optim.solver:PINV.forward', 'pypose.optim.solver:LSTSQ.forward', 'pypose.optim.solver:Cholesky.forward'])(_c10.direct_float)
